@@ -22,6 +22,9 @@ CHECKS = {
  "C06": dict(engine="irsim", category="fault_enumeration", design="DESIGN.md sections 4, 6 (C06)", technique="deterministic simulation degenerated to one client: rejected calls as injected faults, planted at every position of multi-element arguments; snapshot before / after every raise",
    text="Same histories as C01 with a canonical snapshot of every reachable object (public accessors, identities via registry indices) before every call and compared after every raising call; the thorough tier enumerates op family x invalidity kind x argument length <= 4 x position on seeded base worlds.",
    note="name-authority counters (private, but listed as state by the statement) are read defensively and reported under a separate clause."),
+ "C11": dict(engine="irsim", category="exploration", design="DESIGN.md section 6 (C11)", technique="deterministic simulation of cooperative tasks: seeded interleaving of live iterators with node-sequence edits, list reference model",
+   text="Up to four live iterators (iter/reversed/recursive/all_nodes over graph or function) are stepped by the driver, interleaved with append/extend/insert/remove/move/sort edits aimed at cursor, neighbours, visited and unvisited nodes; trace predicates (exact next, resume after removed current, untouched exactly once in order, members only, termination) and len/index/slice/contains/reversed against a list model after every step.",
+   note="predicates only where the statement is unambiguous; after sort only no-exception/termination/membership are required; recursive iterators are checked on the top-level projection plus nested exactly-once."),
 }
 NA = [
  ("C02", "pure function of the input proto: no schedule, clock, fault, crash point or history for a simulator to vary (DESIGN.md section 7)"),
